@@ -27,7 +27,7 @@ def floors(tier):
 
 
 def make(rng):
-    n = rng.choice([0, 1, 1, 2, 3, 5, 8, 13, 30, 200])
+    n = rng.choice([0, 1, 1, 2, 3, 5, 8, 13, 30, 200]) if rng.random() > 0.01 else rng.choice([1000, 3000, 6000])      # scale
     syms = []
     for _ in range(n):
         if rng.random() < 0.5:
@@ -79,7 +79,7 @@ def run(ctx):
         judge(make(rng), "random")
     judge([], "empty")
     for i in range(150 if quick else 4000):
-        coll = [make(rng) for _ in range(rng.randint(0, 6))]
+        coll = [make(rng) for _ in range(rng.randint(0, 6) if i % 40 else rng.choice([100, 400]))]      # now and then a whole data set
         strs = ["".join(it) for it in coll]
         if rng.random() < 0.3:
             # a column of a data frame / numpy array: the elements are instances of a str subclass
